@@ -28,6 +28,7 @@ OWN = {
             "panic_on_drop", "process_left_behind", "attached_process_killed", "attached_process_left_stopped",
             "residual_patch_after_release", "debug_register_left_armed", "pc_not_in_execution", "exit_not_reported"},
 }
+PUPPETS_MIXED = ["cmix8"]
 STEP_CMDS = {"stepi", "step", "next", "finish"}
 RUN_CMDS = {"start", "continue"}
 
@@ -80,20 +81,38 @@ def gen_histories(p, cands, maxcmd, maxbps, num, seed, mix, maxbk=3):
             continue
         if mix == "bps" and any(k in STEP_CMDS for k in kinds):
             continue
+        if mix == "adjacent" and (sum(1 for k in kinds if k == "break_addr") < 2 or any(k in STEP_CMDS for k in kinds)
+                                  or sum(1 for k in kinds if k == "continue") < 3):
+            continue
         if mix == "life" and not any(k in ("restart", "drop") for k in kinds):
             continue
         key = json.dumps(h, sort_keys=True)
         if key in seen:
             continue
         seen.add(key)
-        pairs, prev = set(), 0
+        pairs, prev, ubp, prevcmd = set(), 0, set(), ""
         for c in h:
             pairs.add((prev, c["cmd"], c.get("addr", 0) if c["cmd"].startswith(("break", "remove")) else 0))
+            # context that changes what a step has to do: standing on an enabled breakpoint (step-over of the
+            # patched instruction), a caller's frame selected, a signal pending
+            if c["cmd"] in STEP_CMDS | RUN_CMDS and 1 <= prev <= len(p.X):
+                ctx = ("B" if p.X[prev - 1]["pc"] in ubp else "") + ("F" if prevcmd == "frame" else "") \
+                    + ("S" if prevcmd == "signal" else "")
+                if ctx:
+                    pairs.add(("ctx", c["cmd"], ctx))
+            if c["cmd"] == "break_addr":
+                ubp.add(c["addr"])
+            elif c["cmd"] == "remove_addr":
+                ubp.discard(c["addr"])
             prev = c.get("at", prev)
+            prevcmd = c["cmd"]
         pool.append((h, pairs))
     res, covered = [], set()
     while pool and len(res) < num:
-        best = max(range(len(pool)), key=lambda k: len(pool[k][1] - covered))
+        def gain(k):
+            fresh = pool[k][1] - covered
+            return len(fresh) + 4 * sum(1 for x in fresh if x[0] == "ctx")
+        best = max(range(len(pool)), key=gain)
         h, pairs = pool.pop(best)
         if res and not (pairs - covered):
             break
